@@ -1592,3 +1592,11 @@ V("r10-c15-closure-squaring-half", "C15", "fire", UT, _TC_OLD, _tc_squaring("int
 for _i in (1, 2, 3, 4, 5, 6, 7, 8, 10, 11, 12, 13, 14, 15, 16, 17, 18, 19, 20):
     VARIANTS.append(dict(id="small-idioms-c%02d" % _i, prop="C%02d" % _i, expect="silent", rule=None, edits=[("@small_idioms",)],
                          what="np.where(m)[0] -> np.flatnonzero(m), X[a, :] -> X[a], x ** 0.5 -> pow(x, 0.5), len(pa(...)) > 0 -> pa(...) everywhere"))
+for _i in (1, 2, 3, 4, 5, 6, 7, 8, 10, 11, 12, 13, 14, 15, 16, 17, 18, 19, 20):
+    VARIANTS.append(dict(id="flip-comparisons-c%02d" % _i, prop="C%02d" % _i, expect="silent", rule=None, edits=[("@flip_comparisons",)],
+                         what="every ordered comparison with its operands swapped (a < b -> b > a)"))
+    VARIANTS.append(dict(id="else-after-exit-c%02d" % _i, prop="C%02d" % _i, expect="silent", rule=None, edits=[("@else_after_exit",)],
+                         what="`else` after return / raise / continue / break turned into straight-line code, everywhere"))
+for _i in (1, 2, 3, 4, 5, 6, 7, 8, 10, 11, 12, 13, 14, 15, 16, 17, 18, 19, 20):
+    VARIANTS.append(dict(id="comp-to-loop-c%02d" % _i, prop="C%02d" % _i, expect="undecided", rule=None, edits=[("@comp_to_loop",)],
+                         what="every `name = [elt for t in it if c]` statement written as a loop with append, dict(generator) as a dict comprehension: accepted or undecided, never an alarm"))
